@@ -196,10 +196,29 @@ def build(active_known=frozenset()):
                       "and emptiness is tested no further than the element after them", lazy)
 
     # ------------------------------------------------------------------ runtime.apply on a compiled variadic function
-    for M, nlead in ((0, 0), (0, 2), (2, 0), (2, 1), (2, 3)):
-        c = pack.contract(drv + "call_apply")
-        c.label = f"variadic, max fixed arity {M}, {nlead} leading argument(s) before the final sequence"
+    for M, nlead, through_var in ((0, 0, False), (0, 2, False), (2, 0, False), (2, 1, False), (2, 3, False), (0, 0, True), (2, 1, True)):
+        c = pack.contract(drv + ("call_apply_var" if through_var else "call_apply"))
+        c.label = f"variadic, max fixed arity {M}, {nlead} leading argument(s) before the final sequence" + (", through the function's Var" if through_var else "")
         c.param("f", OBJ(BFn))
+        if through_var:
+            c.param("v", OBJ(rt.Var))
+
+            def vsetup(eng, st):
+                eng.class_id(rt.Var)
+                fterm = z3.Const("arg.f", V.Val)
+                vm = Model("Var.value (the compiled function the Var holds)", lambda e, s, a, k: iter([(s, SV(fterm, hint=BFn))]))
+                vm.is_property = True
+                eng.method_models[(rt.Var, "value")] = vm
+
+                def var_call(e, s, a, k):
+                    # Var.__call__ (contract below): the value is called with the same arguments
+                    yield from e.call(SV(fterm, hint=BFn), list(a[1:]), dict(k), s)
+
+                eng.method_models[(rt.Var, "__call__")] = Model("Var.__call__ (by contract)", var_call)
+
+            c.setup(vsetup)
+            c.replay(lambda m, ctx, ob: CALLS_REPLAY)
+            c.replay_without_model = True
         c.param_value("arities", lambda eng, st, M=M: tuple(range(M + 1)) + (REST_KW,))
         c.param_value("max_fixed_arity", lambda eng, st, M=M: M)
 
@@ -338,6 +357,39 @@ def build(active_known=frozenset()):
     c.raises()
     c.modifies()
     c.ensures("the arguments are passed on as they are", lambda a: a.result == z3.Select(a.pre.st.field_array("_args"), V.Val.a(a.self)))
+
+    # ------------------------------------------------------------------ a call through the Var
+    from pyvc.contract import STAR
+
+    VALUE = z3.Const("the.vars.value", V.Val)
+    KV = z3.Const("kwarg.k", V.Val)
+
+    def var_setup(eng, st):
+        eng.class_id(rt.Var)
+        eng.class_id(PlainFn)
+        st.assume(V.is_ref(VALUE), V.Val.a(VALUE) <= 0, V.cls_of(V.Val.a(VALUE)) == eng.class_id(PlainFn))
+        vm = Model("Var.value (the function the Var holds)", lambda e, s, a, k: iter([(s, SV(VALUE, hint=PlainFn))]))
+        vm.is_property = True
+        eng.method_models[(rt.Var, "value")] = vm
+
+    c = pack.contract("basilisp.lang.runtime:Var.__call__")
+    c.param("self", OBJ(rt.Var)).param("args", STAR(2))
+    c.extra_kwargs = {"k": SV(KV)}
+    c.setup(var_setup)
+    c.allow_callback_exceptions = True
+
+    def var_call_post(a):
+        calls = calls_to(a, VALUE)
+        if len(calls) != 1:
+            return z3.BoolVal(False)
+        targs, kwargs, res = calls[0][1], calls[0][2], calls[0][3]
+        if len(targs) != 2 or set(kwargs) != {"k"}:
+            return z3.BoolVal(False)
+        return z3.And(targs[0] == a.args0, targs[1] == a.args1, a.eng.lift(kwargs["k"], a.post.st) == KV, a.result == res if not isinstance(res, Exc) else z3.BoolVal(True))
+
+    c.ensures("calling a Var calls the function it holds exactly once with the same positional arguments in order and the same keyword arguments, and returns its result", var_call_post)
+    c.replay(lambda m, ctx, ob: VAR_CALL_REPLAY)
+    c.replay_without_model = True
 
     add_dispatch_generator(pack)
     for c in pack.contracts:
@@ -515,6 +567,16 @@ def add_dispatch_generator(pack):
     c.ensures("the emitted call is _basilisp_fn(arities=..., max_fixed_arity=<that number>)", deco_post)
 
 
+VAR_CALL_REPLAY = r'''
+from basilisp.lang import runtime as rt, symbol as sym
+ns = rt.Namespace.get_or_create(sym.symbol("c08-var-call"))
+v = rt.Var.intern(ns, sym.symbol("f"), lambda *a, **k: (a, k))
+got = v(1, 2, k=3)
+print("(#'f 1 2 :k 3) through the Var ->", got)
+print("REPRODUCED" if got != ((1, 2), {"k": 3}) else "not reproduced")
+'''
+
+
 CALLS_REPLAY = r'''
 import subprocess, sys, tempfile, os
 src = """(ns c08.replay)
@@ -526,6 +588,7 @@ src = """(ns c08.replay)
 (defn f4only [a b c d & more] [:f4only a b c d])
 (defn g ([a] [:g1 a]) ([a b] [:g2 a b]) ([a b & more] [:gv a b (vec more)]))
 (defn h3 ([a] [:one a]) ([a b c & r] [:rest a b c r]))
+(defn gv [a & r] [a (first r)])
 (defn rfix ([n acc] (if (zero? n) acc (recur (dec n) (cons n acc)))) ([n acc & more] [:variadic n acc more]))
 (defn rr [x & more] (if (< x 3) (recur (inc x) more) [:rr x more]))
 (defn rr0 [& more] (if (seq more) (recur (next more)) [:rr0 more]))
@@ -554,7 +617,8 @@ src = """(ns c08.replay)
   ((partial g 1) 2) ((partial g 1 2) 3 4) ((partial vector 1 2) 3 4) ((partial f2 1) 2 3)
   (rr 0) (rr 0 :a :b) (rr0 1 2 3)
   (apply h3 [1 2 3]) (apply h3 1 2 [3 4 5]) (apply h3 [7]) (h3 1 2 3 4)
-  (try (rfix 3 nil) (catch python/Exception e (python/type e))) (rfix 1 2 3))
+  (try (rfix 3 nil) (catch python/Exception e (python/type e))) (rfix 1 2 3)
+  (do (reset! realized 0) [(apply (var gv) 1 (take 40 (counted 0))) (<= @realized 3)]))
 """
 with tempfile.NamedTemporaryFile("w", suffix=".lpy", delete=False) as fh:
     fh.write(src)
@@ -564,7 +628,7 @@ finally:
     os.unlink(fh.name)
 line = [l for l in out.stdout.splitlines() if l.startswith("RESULT")]
 got = line[0] if line else "no output: " + out.stderr[-400:]
-want = "RESULT [:f0 0 1] true [:f2 0 1 2] true [:f2 10 0 1] true true true [:f2 10 20 30] [:f2only 1 2 true] [:f2only 1 2 true] [:g1 1] [:g2 1 2] [:gv 1 2 [3 4]] [:gv 1 2 [3]] [:g2 1 2] [:gv 1 2 [3 4]] [1 2 3 4] [:f2 1 2 3] [:rr 3 nil] [:rr 3 (:a :b)] [:rr0 nil] [:rest 1 2 3 nil] [:rest 1 2 3 (4 5)] [:one 7] [:rest 1 2 3 (4)] (1 2 3) [:variadic 1 2 (3)]"
+want = "RESULT [:f0 0 1] true [:f2 0 1 2] true [:f2 10 0 1] true true true [:f2 10 20 30] [:f2only 1 2 true] [:f2only 1 2 true] [:g1 1] [:g2 1 2] [:gv 1 2 [3 4]] [:gv 1 2 [3]] [:g2 1 2] [:gv 1 2 [3 4]] [1 2 3 4] [:f2 1 2 3] [:rr 3 nil] [:rr 3 (:a :b)] [:rr0 nil] [:rest 1 2 3 nil] [:rest 1 2 3 (4 5)] [:one 7] [:rest 1 2 3 (4)] (1 2 3) [:variadic 1 2 (3)] [[1 0] true]"
 print("got     ", got)
 print("expected", want)
 print("REPRODUCED" if got != want else "not reproduced")
